@@ -105,6 +105,33 @@ func c22Run(t *testing.T, r *verifsim.Run) {
 		synctest.Wait()
 		w.net.Drain() // nothing expected
 
+		// side call (b0): every member's own executor is asked for the leader
+		// several times before the protocol run; all answers must agree. (A
+		// single stable class for an election that depends on Go map order,
+		// which would otherwise surface as a different symptom on each replay.)
+		{
+			var first chain.Address
+			for _, op := range w.ops {
+				sd, err := op.ce.getSeed(cb)
+				if err != nil {
+					r.Failf("C22:seed-error", "window %d: getSeed failed on op%d: %v", index, op.idx, err)
+					break
+				}
+				for rep := 0; rep < 4 && !r.Failed(); rep++ {
+					l := op.ce.getLeader(sd)
+					if op.idx == 0 && rep == 0 {
+						first = l
+					}
+					if l != first {
+						r.Failf("C22:members-disagree-on-leader", "window %d: op%d (call %d) elects %s while op0 (call 0) elected %s for the same wallet, window and safe block hash", index, op.idx, rep, w.opName(l), w.opName(first))
+					}
+				}
+			}
+			if r.Failed() {
+				break
+			}
+		}
+
 		results := make([]*c22Result, nOps)
 		order := tp.Perm("start-order", nOps)
 		nonFifo := false
